@@ -319,12 +319,15 @@ class C09(Check):
             '4 (dense) / 5 (sparse, with absent keys) letter alphabet, Where n_interactions/n_actions/n_features over {unset, exact k, '
             '(lo,hi)} with lo,hi in {None,0,1,2,3,5,9} (quick: one parameter over all 41 specs x the two others in {unset, one binding range}; thorough: every pair over 41x41 x the third in {unset, one binding range}), Cache '
             '(n_slice x abandoned first read), Chunk, Params, Identity, Batch(k)|Unbatch, Batch(k)|BatchSafe(Identity)|Unbatch; plus the same filters reached through the Environments facade on 3 flavours (differential against the direct filter, tags only); all '
-            'enumerated exhaustively, shortest sequences first; every case runs the real filter on a list input, on a one-shot '
+            'object histories: ONE filter object applied to sequence A, then to a different sequence B, then to A again, for every pair of lengths 0..5 x 0..5 (thorough 0..6 x 0..6) x 6 (thorough 10) flavour pairs (same / other kind / other context representation) x the parameter alphabets above (Sort keys incl. key 0 which is legal on dense and sparse; 20 Where specs; Cache and Chunk excluded), each output compared with a fresh filter of equal parameters, the reference model and the input content; the same through ONE Environments.<method>() call over two environments (each member vs. the method applied to it alone, tags only, Cache/Chunk included because the facade attaches one per environment); all '
+            'enumerated exhaustively, shortest sequences first; every single-sequence case runs the real filter on a list input, on a one-shot '
             'iterator input and re-uses the filter object. A case is non-trivial when the reference output differs from the input '
             'sequence (re-ordered / shortened / dropped) or, for the identity filters, when the sequence is non-empty')
     ASSUMPTIONS = [
         'which permutation Shuffle/Riffle produce and which subset/order Reservoir produces are not constrained (only permutation / distinctness / count / determinism)',
-        'determinism is demanded between fresh filters with equal seed, between list and iterator inputs, and for a completely consumed filter object that is re-used; reads abandoned half-way are left to C04 (except for Cache, whose re-read must still be the identity)',
+        'determinism is demanded between fresh filters with equal seed, between list and iterator inputs, and for a completely consumed filter object that is re-used on the same or on a different sequence (output = what a fresh filter with the same parameters gives); reads abandoned half-way are left to C04 (except for Cache, whose re-read must still be the identity)',
+        'Cache and Chunk are only demanded to be the identity on the stream they are attached to: a Cache/Chunk object moved to another stream is outside the statement (Cache keeps the first stream it sees by design)',
+        'in an object history a step on which a fresh filter raises (e.g. Sort with an index key on the other context representation) is not judged',
         'Sort on scalar or None contexts, and Sort without keys on sparse contexts, may raise; if they return, the output must be a permutation with unaltered content',
         'Sort on a sparse context that lacks a chosen key: absent = 0 ordering or an exception are both accepted',
         'Where(n_actions=...) on logged interactions without an "actions" entry may raise (statement is silent)',
